@@ -1,17 +1,25 @@
 import ZvbiModel.Search.LemmasPos
 /-!
 # Lemmas about the page walk, part 4: the walk with ANY callback is the fold of that callback over the
-pages found at the probed positions (`runPos`), provided no statistics window reaches the wildcard
-sub-page number 0x3F7F.  The most-recently-used reordering done by every look-up is shown not to matter.
+pages found at the probed positions (`runPos`).  The start position is looked up as the caller gave it
+(`lookup`: wildcard 0x3F7F, page number check), every later position exactly (`lookupX`, since ce86777 - before,
+a statistics window reaching 0x3F7F broke this refinement).  The most-recently-used reordering done by every
+look-up is shown not to matter.
 -/
 namespace Zvbi.Search
 
 /-- the test `_vbi_cache_get_page (.., subno, -1)` applies to the pages of the chain -/
 def pred (s : Int) : Entry → Bool := fun e => s = ANY_SUBNO || (e.subno : Int) = s
 
-/-- the page a look-up returns -/
+/-- the page `_vbi_cache_get_page` returns (start position of the walk) -/
 def lookup (c : Cache) (p s : Int) : Option Entry :=
   if validPgno p then (c.slots p.toNat).chain.find? (pred s) else none
+
+/-- the test of the exact look-up `page_by_pgno (.., subno, -1)` -/
+def predX (s : Int) : Entry → Bool := fun e => decide ((e.subno : Int) = s)
+
+/-- the page the exact look-up inside the walk returns: the first page of the chain with that sub-page number -/
+def lookupX (c : Cache) (p s : Int) : Option Entry := (c.slots p.toNat).chain.find? (predX s)
 
 theorem removeFirst_split (q : Entry → Bool) : ∀ (l : List Entry) (e : Entry) (rest : List Entry),
     removeFirst q l = some (e, rest) →
@@ -76,16 +84,54 @@ theorem getPage_fst (c : Cache) (p s : Int) : (getPage c p s).1 = lookup c p s :
       rw [hl]; exact (find_of_split hpre hq).symm
   · simp [hv]
 
+theorem getExact_fst (c : Cache) (p s : Int) : (getExact c p s).1 = lookupX c p s := by
+  unfold getExact lookupX predX
+  simp only
+  cases hr : removeFirst (fun e => decide ((e.subno : Int) = s)) (c.slots p.toNat).chain with
+  | none => simp only; exact (removeFirst_none _ _ hr).symm
+  | some t =>
+    obtain ⟨e, rest⟩ := t
+    simp only
+    obtain ⟨pre, post, hl, _, hpre, hq⟩ := removeFirst_split _ _ _ _ hr
+    rw [hl]; exact (find_of_split hpre hq).symm
+
 /-- `c'` is `c` up to the order of the hash chains: same statistics, same answer to every exact look-up -/
 structure Equiv (c c' : Cache) : Prop where
   stat : ∀ q : Nat, (c'.slots q).stat = (c.slots q).stat
   ncached : c'.nCached = c.nCached
-  look : ∀ (q : Nat) (s : Int), s ≠ ANY_SUBNO → (c'.slots q).chain.find? (pred s) = (c.slots q).chain.find? (pred s)
+  look : ∀ (q : Nat) (s : Int), (c'.slots q).chain.find? (predX s) = (c.slots q).chain.find? (predX s)
 
-theorem Equiv.refl (c : Cache) : Equiv c c := ⟨fun _ => rfl, rfl, fun _ _ _ => rfl⟩
+theorem Equiv.refl (c : Cache) : Equiv c c := ⟨fun _ => rfl, rfl, fun _ _ => rfl⟩
 
-theorem pred_exact {s : Int} (hs : s ≠ ANY_SUBNO) (e : Entry) : pred s e = decide ((e.subno : Int) = s) := by
-  simp [pred, hs]
+/-- moving the page a look-up found to the head of its chain does not change the answer to any exact look-up:
+    the pages it overtakes have another sub-page number -/
+theorem find_move_front (q : Entry → Bool) (s' : Int) (pre post : List Entry) (e : Entry)
+    (hpre : ∀ x ∈ pre, q x = false) (hov : predX s' e = true → ∀ x ∈ pre, predX s' x = false) :
+    (e :: (pre ++ post)).find? (predX s') = (pre ++ e :: post).find? (predX s') := by
+  by_cases hpe : predX s' e = true
+  · rw [find_of_split (hov hpe) hpe]
+    simp [List.find?_cons, hpe]
+  · have hpe' : predX s' e = false := by simpa using hpe
+    simp [List.find?_cons, List.find?_append, hpe']
+
+theorem setSlot_equiv {c c' : Cache} (h : Equiv c c') (p : Nat) (q : Entry → Bool) (pre post : List Entry) (e : Entry)
+    (hl : (c'.slots p).chain = pre ++ e :: post) (hpre : ∀ x ∈ pre, q x = false)
+    (hov : ∀ s', predX s' e = true → ∀ x ∈ pre, predX s' x = false) :
+    Equiv c (c'.setSlot p ⟨(c'.slots p).stat, e :: (pre ++ post)⟩ c'.nCached) := by
+  refine ⟨?_, ?_, ?_⟩
+  · intro q'; unfold Cache.setSlot; simp only
+    by_cases hqp : q' = p
+    · subst hqp; simp [h.stat]
+    · simp [hqp, h.stat]
+  · simp [Cache.setSlot, h.ncached]
+  · intro q' s'
+    unfold Cache.setSlot; simp only
+    by_cases hqp : q' = p
+    · subst hqp
+      simp only [if_true]
+      rw [← h.look _ s', hl]
+      exact find_move_front q s' pre post e hpre (hov s')
+    · simp [hqp, h.look q' s']
 
 theorem getPage_equiv {c c' : Cache} (h : Equiv c c') (p s : Int) : Equiv c (getPage c' p s).2 := by
   unfold getPage
@@ -97,37 +143,38 @@ theorem getPage_equiv {c c' : Cache} (h : Equiv c c') (p s : Int) : Equiv c (get
       obtain ⟨e, rest⟩ := t
       simp only
       obtain ⟨pre, post, hl, hrest, hpre, hq⟩ := removeFirst_split _ _ _ _ hr
-      refine ⟨?_, ?_, ?_⟩
-      · intro q; unfold Cache.setSlot; simp only
-        by_cases hqp : q = p.toNat
-        · subst hqp; simp [h.stat]
-        · simp [hqp, h.stat]
-      · simp [Cache.setSlot, h.ncached]
-      · intro q s' hs'
-        unfold Cache.setSlot; simp only
-        by_cases hqp : q = p.toNat
-        · subst hqp
-          simp only [if_true]
-          rw [← h.look _ s' hs', hl, hrest]
-          by_cases hpe : pred s' e = true
-          · have hnone : ∀ x ∈ pre, pred s' x = false := by
-              intro x hx
-              have hx' := hpre x hx
-              rw [pred_exact hs'] at hpe ⊢
-              simp only [Bool.or_eq_false_iff, decide_eq_false_iff_not] at hx'
-              simp only [Bool.or_eq_true, decide_eq_true_eq] at hq
-              simp only [decide_eq_true_eq] at hpe
-              simp only [decide_eq_false_iff_not]
-              intro hxs
-              rcases hq with hq | hq
-              · exact hx'.1 hq
-              · exact hx'.2 (by omega)
-            rw [find_of_split hnone hpe]
-            simp [List.find?_cons, hpe]
-          · have hpe' : pred s' e = false := by simpa using hpe
-            simp [List.find?_cons, List.find?_append, hpe']
-        · simp [hqp, h.look q s' hs']
+      rw [hrest]
+      refine setSlot_equiv h _ _ pre post e hl hpre ?_
+      intro s' hpe x hx
+      have hx' := hpre x hx
+      simp only [Bool.or_eq_false_iff, decide_eq_false_iff_not] at hx'
+      simp only [Bool.or_eq_true, decide_eq_true_eq] at hq
+      simp only [predX, decide_eq_true_eq] at hpe
+      simp only [predX, decide_eq_false_iff_not]
+      intro hxs
+      rcases hq with hq | hq
+      · exact hx'.1 hq
+      · exact hx'.2 (by omega)
   · simpa [hv] using h
+
+theorem getExact_equiv {c c' : Cache} (h : Equiv c c') (p s : Int) : Equiv c (getExact c' p s).2 := by
+  unfold getExact
+  simp only
+  cases hr : removeFirst (fun e => decide ((e.subno : Int) = s)) (c'.slots p.toNat).chain with
+  | none => simpa using h
+  | some t =>
+    obtain ⟨e, rest⟩ := t
+    simp only
+    obtain ⟨pre, post, hl, hrest, hpre, hq⟩ := removeFirst_split _ _ _ _ hr
+    rw [hrest]
+    refine setSlot_equiv h _ _ pre post e hl hpre ?_
+    intro s' hpe x hx
+    have hx' := hpre x hx
+    simp only [decide_eq_false_iff_not] at hx'
+    simp only [decide_eq_true_eq] at hq
+    simp only [predX, decide_eq_true_eq] at hpe
+    simp only [predX, decide_eq_false_iff_not]
+    omega
 
 theorem stat_of_equiv {c c' : Cache} (h : Equiv c c') (q : Int) : c'.stat q = c.stat q := by
   unfold Cache.stat; exact h.stat _
@@ -142,43 +189,11 @@ theorem skip_congr {c c' : Cache} (h : ∀ q : Int, c'.stat q = c.stat q) (dir :
     unfold skip
     simp only [h, ih]
 
-theorem skip_some_inRange (c : Cache) (dir : Int) : ∀ (n : Nat) (p s : Int) (w : Bool) (p' s' : Int) (w' : Bool),
-    skip c dir n p s w = some (some (p', s', w')) → inRange (c.stat p') s' = true := by
-  intro n
-  induction n with
-  | zero => intro p s w p' s' w' h; simp [skip] at h
-  | succ n ih =>
-    intro p s w p' s' w' h
-    unfold skip at h
-    by_cases hin : inRange (c.stat p) s = true
-    · simp only [hin, if_true] at h
-      injection h with h; injection h with h; injection h with h1 h; injection h with h2 h3
-      subst h1 h2 h3; exact hin
-    · simp only [hin, if_false] at h
-      by_cases hd : dir < 0
-      · simp only [hd, if_true] at h
-        by_cases hl : p - 1 < 0x100
-        · simp only [hl, if_true] at h
-          cases w with
-          | true => simp at h
-          | false => simp only [Bool.false_eq_true, if_false] at h; exact ih _ _ _ _ _ _ h
-        · simp only [hl, if_false] at h; exact ih _ _ _ _ _ _ h
-      · simp only [hd, if_false] at h
-        by_cases hl : p + 1 > 0x8FF
-        · simp only [hl, if_true] at h
-          cases w with
-          | true => simp at h
-          | false => simp only [Bool.false_eq_true, if_false] at h; exact ih _ _ _ _ _ _ h
-        · simp only [hl, if_false] at h; exact ih _ _ _ _ _ _ h
-
-/-- no statistics window reaches the wildcard sub-page number -/
-def NoAny (c : Cache) : Prop := ∀ q : Int, (c.stat q).subMax.toNat < 0x3F7F
-
-/-- the callbacks a walk makes when it probes the positions `ps` on cache `c` -/
+/-- the callbacks a walk makes when it probes the positions `ps` (exact look-ups) on cache `c` -/
 def runPos {σ : Type} (cb : Callback σ) (c : Cache) : List Pos → σ → Int × σ
   | [], s => (-1, s)
   | (p, sub, w) :: rest, s =>
-    match lookup c p sub with
+    match lookupX c p sub with
     | none => runPos cb c rest s
     | some e =>
       match cb s p.toNat e w with
@@ -186,19 +201,16 @@ def runPos {σ : Type} (cb : Callback σ) (c : Cache) : List Pos → σ → Int 
 
 theorem runPos_cons {σ : Type} (cb : Callback σ) (c : Cache) (p sub : Int) (w : Bool) (rest : List Pos) (s : σ) :
     runPos cb c ((p, sub, w) :: rest) s =
-      match lookup c p sub with
+      match lookupX c p sub with
       | none => runPos cb c rest s
       | some e =>
         match cb s p.toNat e w with
         | (r, s') => if r ≠ 0 then (r, s') else runPos cb c rest s' := rfl
 
-theorem lookup_equiv {c c' : Cache} (h : Equiv c c') (p s : Int) (hs : s ≠ ANY_SUBNO) : lookup c' p s = lookup c p s := by
-  unfold lookup
-  by_cases hv : validPgno p = true
-  · simp [hv, h.look _ s hs]
-  · simp [hv]
+theorem lookupX_equiv {c c' : Cache} (h : Equiv c c') (p s : Int) : lookupX c' p s = lookupX c p s := by
+  unfold lookupX; exact h.look _ s
 
-theorem loop_factors {σ : Type} (cb : Callback σ) (c : Cache) (hno : NoAny c) (dir : Int) :
+theorem loop_factors {σ : Type} (cb : Callback σ) (c : Cache) (dir : Int) :
     ∀ (n : Nat) (c0 : Cache) (s : σ) (p sub : Int) (w : Bool) (cp : Option Entry), Equiv c c0 →
     (loop cb dir n c0 s p sub w cp).res = .outOfFuel ∨
     ((loop cb dir n c0 s p sub w cp).res =
@@ -228,15 +240,10 @@ theorem loop_factors {σ : Type} (cb : Callback σ) (c : Cache) (hno : NoAny c) 
         | some t =>
           obtain ⟨p', s', w'⟩ := t
           simp only
-          have hin := skip_some_inRange c dir _ _ _ _ _ _ _ hsk
-          have hs' : s' ≠ ANY_SUBNO := by
-            have h1 := ((inRange_iff _ _).mp hin).2.2
-            have h2 := hno p'
-            unfold ANY_SUBNO; omega
-          have heq' := getPage_equiv heq p' s'
-          have hfst : (getPage c0 p' s').1 = lookup c p' s' := by
-            rw [getPage_fst, lookup_equiv heq p' s' hs']
-          generalize getPage c0 p' s' = g at heq' hfst
+          have heq' := getExact_equiv heq p' s'
+          have hfst : (getExact c0 p' s').1 = lookupX c p' s' := by
+            rw [getExact_fst, lookupX_equiv heq p' s']
+          generalize getExact c0 p' s' = g at heq' hfst
           obtain ⟨cp', c'⟩ := g
           simp only at heq' hfst ⊢
           rcases ih c' s1 p' s' w' cp' heq' with ih0 | ⟨ih1, ih2⟩
@@ -258,48 +265,17 @@ def startSub (c : Cache) (p sub : Int) : Int := startSubOf (lookup c p sub) sub
 def walkPositions (c : Cache) (p sub dir : Int) : List Pos :=
   (p, startSub c p sub, false) :: positions c dir walkFuel p (startSub c p sub) false
 
-theorem lookup_startSub (c : Cache) (p sub : Int) : lookup c p (startSub c p sub) = lookup c p sub := by
-  unfold startSub startSubOf
-  cases hl : lookup c p sub with
-  | none =>
-    simp only
-    by_cases hs : sub = ANY_SUBNO
-    · simp only [hs, if_true]
-      subst hs
-      unfold lookup at hl ⊢
-      by_cases hv : validPgno p = true
-      · simp only [hv, if_true] at hl ⊢
-        have : (c.slots p.toNat).chain = [] := by
-          cases hc : (c.slots p.toNat).chain with
-          | nil => rfl
-          | cons a l => rw [hc] at hl; simp [pred] at hl
-        simp [this]
-      · simp [hv]
-    · simp [hs, hl]
-  | some e =>
-    simp only
-    unfold lookup at hl ⊢
-    by_cases hv : validPgno p = true
-    · simp only [hv, if_true] at hl ⊢
-      by_cases hs : sub = ANY_SUBNO
-      · subst hs
-        cases hc : (c.slots p.toNat).chain with
-        | nil => rw [hc] at hl; simp at hl
-        | cons a l =>
-          rw [hc] at hl
-          simp [pred] at hl
-          subst hl
-          simp [pred]
-      · have hpe := List.find?_some hl
-        simp only [pred, hs, decide_false, Bool.false_or, decide_eq_true_eq] at hpe
-        rw [hpe]; exact hl
-    · simp [hv] at hl
+/-- the walk as a fold: the callback on the page `_vbi_cache_get_page` finds at the start position (wildcard
+    sub-page number allowed), then on the pages the exact look-up finds at the later positions -/
+def walkRun {σ : Type} (cb : Callback σ) (c : Cache) (p sub dir : Int) (s : σ) : Int × σ :=
+  match firstCall cb s p false (lookup c p sub) with
+  | (r, s1) => if r ≠ 0 then (r, s1) else runPos cb c (positions c dir walkFuel p (startSub c p sub) false) s1
 
-theorem walk_factors {σ : Type} (cb : Callback σ) (c : Cache) (s : σ) (p sub dir : Int) (hno : NoAny c)
+theorem walk_factors {σ : Type} (cb : Callback σ) (c : Cache) (s : σ) (p sub dir : Int)
     (hne : c.nCached ≠ 0) (hp : PgOk p) (hdir : dir = 1 ∨ dir = -1) :
-    (walk cb walkFuel c s p sub dir).res = .ret (runPos cb c (walkPositions c p sub dir) s).1 ∧
-    (walk cb walkFuel c s p sub dir).st = (runPos cb c (walkPositions c p sub dir) s).2 := by
-  unfold walk
+    (walk cb walkFuel c s p sub dir).res = .ret (walkRun cb c p sub dir s).1 ∧
+    (walk cb walkFuel c s p sub dir).st = (walkRun cb c p sub dir s).2 := by
+  unfold walk walkRun
   simp only [hne, if_false]
   have hfst := getPage_fst c p sub
   have heq := getPage_equiv (Equiv.refl c) p sub
@@ -315,15 +291,69 @@ theorem walk_factors {σ : Type} (cb : Callback σ) (c : Cache) (s : σ) (p sub 
     rcases hdir with rfl | rfl
     · exact loop_fwd_terminates cb _ _ _ _ _ _ _ hp (rankF_lt_fuel hp _ _)
     · exact loop_bwd_terminates cb _ _ _ _ _ _ _ hp (rankB_lt_fuel hp _ _)
-  rcases loop_factors cb c hno dir walkFuel c1 s p (startSub c p sub) false cp heq with h0 | ⟨h1, h2⟩
+  rcases loop_factors cb c dir walkFuel c1 s p (startSub c p sub) false cp heq with h0 | ⟨h1, h2⟩
   · exact absurd h0 hterm
-  · rw [h1, h2]
-    unfold walkPositions
-    rw [runPos_cons, lookup_startSub, ← hfst]
-    cases cp with
-    | none => simp [firstCall]
+  · rw [h1, h2, ← hfst]
+    generalize firstCall cb s p false cp = rs
+    obtain ⟨r, s1⟩ := rs
+    simp only
+    by_cases hr : r ≠ 0 <;> simp [hr]
+
+/-- the start page number passes the check of `_vbi_cache_get_page` (not xFF), or nothing is cached under it
+    (`_vbi_cache_put_page` stores no page xFF: `noFF_build`) -/
+def StartOk (c : Cache) (p : Int) : Prop := validPgno p = true ∨ (c.slots p.toNat).chain = []
+
+/-- the exact look-up at the start position finds the page the walk started with -/
+theorem lookupX_startSub (c : Cache) (p sub : Int) (hok : StartOk c p) :
+    lookupX c p (startSub c p sub) = lookup c p sub := by
+  unfold startSub startSubOf lookupX
+  by_cases hv : validPgno p = true
+  · cases hl : lookup c p sub with
+    | none =>
+      simp only
+      unfold lookup at hl
+      simp only [hv, if_true] at hl
+      rw [List.find?_eq_none] at hl ⊢
+      intro x hx
+      have := hl x hx
+      by_cases hs : sub = ANY_SUBNO
+      · simp [pred, hs] at this
+      · simp only [hs, if_false]
+        simp only [pred, hs, decide_false, Bool.false_or] at this
+        simpa [predX] using this
     | some e =>
-      simp only [firstCall]
-      by_cases hr2 : (cb s p.toNat e false).1 = 0 <;> simp [hr2]
+      simp only
+      unfold lookup at hl
+      simp only [hv, if_true] at hl
+      by_cases hs : sub = ANY_SUBNO
+      · subst hs
+        cases hc : (c.slots p.toNat).chain with
+        | nil => rw [hc] at hl; simp at hl
+        | cons a l =>
+          rw [hc] at hl
+          simp [pred] at hl
+          subst hl
+          simp [predX]
+      · have hpe := List.find?_some hl
+        simp only [pred, hs, decide_false, Bool.false_or, decide_eq_true_eq] at hpe
+        rw [hpe]
+        have : pred sub = predX sub := by
+          funext x; simp [pred, predX, hs]
+        rw [← this]; exact hl
+  · have hc : (c.slots p.toNat).chain = [] := by
+      rcases hok with h | h
+      · exact absurd h hv
+      · exact h
+    have hl : lookup c p sub = none := by unfold lookup; simp [hv]
+    rw [hl, hc]; simp
+
+/-- with `StartOk` the walk is the uniform fold over `walkPositions` -/
+theorem walkRun_eq_runPos {σ : Type} (cb : Callback σ) (c : Cache) (p sub dir : Int) (s : σ) (hok : StartOk c p) :
+    walkRun cb c p sub dir s = runPos cb c (walkPositions c p sub dir) s := by
+  unfold walkRun walkPositions
+  rw [runPos_cons, lookupX_startSub c p sub hok]
+  cases lookup c p sub with
+  | none => simp [firstCall]
+  | some e => rfl
 
 end Zvbi.Search
